@@ -44,20 +44,22 @@ def _tlc(chk, module, cfg, label, **kw):
     res = hg.tlc(module, cfg, **kw)
     if res.violation:
         raise hg.MachineryError("%s with %s violates its own invariants (spec defect, not a finding about /repo):\n%s" % (module, cfg, res.violation[:3000]))
-    chk.add_tlc(res, label)
-    return res
+    return (res, label)     # added to the evidence by the caller (this runs in a worker thread)
 
 
 def model_check(pid, chk, quick):
+    """Exhaustive (and, thorough tier, liveness) model checking of the level-B model. Returns [(TlcResult, label)]."""
+    out = []
     if pid == "C16":
-        _tlc(chk, "MCPushQueue", "PushQueue.quick.cfg" if quick else "PushQueue.thorough.cfg", "PushQueue-exhaustive", env={"PQ_MUTANT": "none"}, timeout=3000)
+        out.append(_tlc(chk, "MCPushQueue", "PushQueue.quick.cfg" if quick else "PushQueue.thorough.cfg", "PushQueue-exhaustive", env={"PQ_MUTANT": "none"}, timeout=3000))
         if not quick:
-            _tlc(chk, "MCPushQueue", "PushQueue.live.cfg", "PushQueue-liveness", env={"PQ_MUTANT": "none"}, timeout=3000)
+            out.append(_tlc(chk, "MCPushQueue", "PushQueue.live.cfg", "PushQueue-liveness", env={"PQ_MUTANT": "none"}, timeout=3000))
     else:
-        _tlc(chk, "MCRealTime", "RealTime.quick.cfg" if quick else "RealTime.thorough.cfg", "RealTime-exhaustive", timeout=3000)
-        _tlc(chk, "MCRealTime", "RealTime.noend.cfg", "RealTime-idle-run-exhaustive", timeout=3000)
+        out.append(_tlc(chk, "MCRealTime", "RealTime.quick.cfg" if quick else "RealTime.thorough.cfg", "RealTime-exhaustive", timeout=3000))
+        out.append(_tlc(chk, "MCRealTime", "RealTime.noend.cfg", "RealTime-idle-run-exhaustive", timeout=3000))
         if not quick:
-            _tlc(chk, "MCRealTime", "RealTime.live.cfg", "RealTime-liveness", timeout=3000)
+            out.append(_tlc(chk, "MCRealTime", "RealTime.live.cfg", "RealTime-liveness", timeout=3000))
+    return out
 
 
 # ------------------------------------------------------------------------------------------ PushQueue behaviours -> replay scenarios
